@@ -13,6 +13,7 @@ package c16
 
 import (
 	"encoding/json"
+	"errors"
 	"fmt"
 	"os"
 	"path/filepath"
@@ -20,16 +21,43 @@ import (
 	"sort"
 	"strconv"
 	"strings"
+	"sync/atomic"
 	"time"
 
+	"github.com/compose-spec/compose-go/v2/template"
 	"github.com/compose-spec/compose-go/v2/types"
 
 	"verifharness/core"
 )
 
+// c16Seg is one segment of a value in C07's wire format: literal, `$$`, `$NAME` / `${NAME}`, `${NAME<op>arg}`.
 type c16Seg struct {
-	Lit *string `json:"lit,omitempty"`
-	Ref *string `json:"ref,omitempty"`
+	Lit    *string  `json:"lit,omitempty"`
+	Esc    *bool    `json:"esc,omitempty"`
+	Var    *string  `json:"var,omitempty"`
+	Braced bool     `json:"braced,omitempty"`
+	Op     *string  `json:"op,omitempty"`
+	O      string   `json:"o,omitempty"`
+	Arg    []c16Seg `json:"arg,omitempty"`
+}
+
+func c16RenderSegs(l []c16Seg) string {
+	var b strings.Builder
+	for _, s := range l {
+		switch {
+		case s.Lit != nil:
+			b.WriteString(*s.Lit)
+		case s.Esc != nil:
+			b.WriteString("$$")
+		case s.Var != nil && s.Braced:
+			b.WriteString("${" + *s.Var + "}")
+		case s.Var != nil:
+			b.WriteString("$" + *s.Var)
+		case s.Op != nil:
+			b.WriteString("${" + *s.Op + s.O + c16RenderSegs(s.Arg) + "}")
+		}
+	}
+	return b.String()
 }
 
 type c16Line struct {
@@ -89,15 +117,7 @@ func c16RenderLines(ls []c16Line) string {
 		case l.Bare != nil:
 			b.WriteString(*l.Bare + "\n")
 		case l.K != nil:
-			b.WriteString(*l.K + "=")
-			for _, s := range l.V {
-				if s.Ref != nil {
-					b.WriteString("${" + *s.Ref + "}")
-				} else if s.Lit != nil {
-					b.WriteString(*s.Lit)
-				}
-			}
-			b.WriteString("\n")
+			b.WriteString(*l.K + "=" + c16RenderSegs(l.V) + "\n")
 		default:
 			b.WriteString("A B=1\n")
 		}
@@ -179,6 +199,11 @@ var c16ErrClasses = []struct {
 }
 
 func c16ErrClass(err error) string {
+	var inv *template.InvalidTemplateError
+	var req *template.MissingRequiredError
+	if errors.As(err, &inv) || errors.As(err, &req) {
+		return "template"
+	}
 	t := err.Error()
 	for _, c := range c16ErrClasses {
 		if c.re.MatchString(t) {
@@ -603,6 +628,10 @@ func c16JudgeOracle(args, real, drv json.RawMessage) *core.Verdict {
 		Err         *string            `json:"err"`
 		Environment map[string]*string `json:"environment"`
 		Labels      map[string]*string `json:"labels"`
+		WF          *bool              `json:"wf"`
+	}
+	if json.Unmarshal(drv, &spec) == nil && spec.WF != nil && !*spec.WF {
+		return core.Skip("a value is not an unambiguous template (outside the specification's domain)")
 	}
 	if json.Unmarshal(drv, &spec) != nil || (spec.Err == nil && spec.Environment == nil) {
 		return core.Disagree("malformed spec outcome: " + string(drv))
@@ -748,16 +777,57 @@ func c16JudgeOracle(args, real, drv json.RawMessage) *core.Verdict {
 	return nil
 }
 
-// None of the modelled functions loops (finite lists, finite files); a case that does not answer within the default
-// 10 s on a saturated machine is a scheduling stall, so the watchdog is generous.  Hangs of the loader are C01's.
-const c16Timeout = 180 * time.Second
+// Watchdogs.  None of the modelled functions loops (finite lists, finite files); on a saturated machine (load average
+// 100+) single cases have been seen not to answer within the default 10 s, so the deadlines are generous.  To report a
+// change that makes the real code hang quickly all the same, the deadline is enforced *inside* the child process:
+// the real phase runs in a goroutine; when it does not return within c16Soft the case is answered `{"hang": …}`
+// (a property failure, key `hang`) and the goroutine is abandoned; after c16MaxHung abandoned goroutines the child
+// answers every further case `{"storm": true}` at once, which the judges skip.  So a hanging input class costs about
+// c16MaxHung × c16Soft per lane (lanes in parallel) however many cases are already queued; the engine's own watchdog
+// (c16Timeout) and crash-storm limit (c16CrashLimit, set in runC16) remain behind it.
+const (
+	c16Soft       = 60 * time.Second
+	c16Timeout    = 100 * time.Second
+	c16MaxHung    = 2
+	c16CrashLimit = 3
+)
+
+var c16Hung int32
+
+func c16Guard(f func(json.RawMessage) any) func(json.RawMessage) any {
+	return func(raw json.RawMessage) any {
+		if atomic.LoadInt32(&c16Hung) >= c16MaxHung {
+			return map[string]any{"storm": true}
+		}
+		ch := make(chan any, 1)
+		go func() { ch <- core.SafeCall(func() any { return f(raw) }) }()
+		select {
+		case r := <-ch:
+			return r
+		case <-time.After(c16Soft):
+			atomic.AddInt32(&c16Hung, 1)
+			return map[string]any{"hang": ">" + c16Soft.String()}
+		}
+	}
+}
+
+// c16Judge skips the cases a child answered after it had given up (see c16Guard).
+func c16Judge(j func(args, real, drv json.RawMessage) *core.Verdict) func(args, real, drv json.RawMessage) *core.Verdict {
+	return func(args, real, drv json.RawMessage) *core.Verdict {
+		var m map[string]json.RawMessage
+		if json.Unmarshal(real, &m) == nil && m["storm"] != nil {
+			return core.Skip("not run: the real code hung repeatedly in this lane")
+		}
+		return j(args, real, drv)
+	}
+}
 
 func init() {
 	core.Register("c16.resolve", &core.CheckDef{
 		Timeout:  c16Timeout,
-		Real:     c16RealResolve,
+		Real:     c16Guard(c16RealResolve),
 		DriverOp: "c16.resolve",
-		Judge: func(args, real, drv json.RawMessage) *core.Verdict {
+		Judge: c16Judge(func(args, real, drv json.RawMessage) *core.Verdict {
 			if v := core.CrashVerdict(real); v != nil {
 				return v
 			}
@@ -769,25 +839,25 @@ func init() {
 				return v
 			}
 			return c16Corr("WithServicesLabelsResolved")(args, r["labels"], d["labels"])
-		},
+		}),
 	})
 	core.Register("c16.load", &core.CheckDef{
 		Timeout: c16Timeout,
-		Real: func(raw json.RawMessage) any {
+		Real: c16Guard(func(raw json.RawMessage) any {
 			var a c16Args
 			if err := json.Unmarshal(raw, &a); err != nil {
 				return map[string]any{"bad": err.Error()}
 			}
 			return c16RealLoad(a)
-		},
+		}),
 		DriverOp: "c16.load",
-		Judge:    c16Corr("LoadWithContext"),
+		Judge:    c16Judge(c16Corr("LoadWithContext")),
 	})
 	core.Register("c16.oracle", &core.CheckDef{
 		Timeout:  c16Timeout,
-		Real:     c16RealOracle,
+		Real:     c16Guard(c16RealOracle),
 		DriverOp: "c16.spec",
-		Judge:    c16JudgeOracle,
+		Judge:    c16Judge(c16JudgeOracle),
 	})
 	core.RegisterProp("C16", runC16)
 }
